@@ -9,10 +9,11 @@ development: checks/c05c.py).
    makes, and - vacuity guard - for six different designs each of which TLC must show to break completeness;
 2. GenKeyDistribution enumerates / samples environment scripts (who activates when, which head is delivered
    to which replica when); the Go driver replays them on real group contexts over real orbit-db replicas,
-   sequentially (handlers idle between steps) and in parallel mode (deliveries race with the activations);
+   sequentially (handlers idle between steps) and as variants with a racing section (a delivery lands inside an
+   activation whose log appends are slowed down);
 3. verdict: MonKeyDistribution (TLC) over the observed values; full-spec conformance of the sequential
    runs against TraceKeyDistribution is model drift only."""
-import json, os, re, threading
+import json, os, re, subprocess, threading
 import vf
 
 PKG = "."
@@ -207,7 +208,7 @@ def _racify(rng, h):
 
 
 def gen_plan(ctx):
-    # (shape, MaxLen, mode, walks, scripts kept sequential, of which also run in parallel mode)
+    # (shape, MaxLen, mode, walks, sequential scripts kept, variants with a racing section)
     if ctx.tier == "quick":
         return [("2x1", 6, "bfs", 0, 8, 3), ("1x2", 5, "bfs", 0, 4, 2), ("2+1", 9, "sim", 150, 20, 8), ("3x1", 9, "sim", 80, 6, 3), ("2x2", 11, "sim", 80, 8, 4)]
     return [("2x1", 6, "bfs", 0, 110, 40), ("1x2", 5, "bfs", 0, 40, 12), ("2+1", 10, "sim", 600, 200, 80), ("3x1", 10, "sim", 300, 80, 30),
@@ -365,7 +366,13 @@ def run_part_c(ctx, info=None, replay_obj=None):
             what = "chain-key distribution breaks C05(c) [%s] in a %s group (%s): %s; script: %s" % (
                 key, sc["cfg"].get("shape"), "racing sections marked ~" if sc["cfg"].get("par") else "sequential", txt, _show(sc))
             ctx.classify("c:" + key, what, {"part": "c", "script": sc, "observed": rj["events"], "rejected_line": line, "step": rj["at"]})
-    info["parts"]["c"] = {"scripts": len(scripts), "sequential": len(seq_ids), "with_racing_sections": len(scripts) - len(seq_ids),
+    def git(*a):
+        try:
+            return subprocess.run(["git", "-C", vf.REPO] + list(a), stdout=subprocess.PIPE, stderr=subprocess.DEVNULL, text=True, timeout=60).stdout.rstrip()
+        except Exception:      # noqa
+            return "?"
+    tree = {"repo": vf.REPO, "head": git("rev-parse", "HEAD"), "modified_files": [l[3:] for l in git("status", "--porcelain").splitlines() if l]}
+    info["parts"]["c"] = {"tree": tree, "scripts": len(scripts), "sequential": len(seq_ids), "with_racing_sections": len(scripts) - len(seq_ids),
                           "per_shape": per_shape, "device_pairs_checked_at_quiescence": pairs,
                           "activations_not_returned": hung, "runs_with_duplicate_announcements": dup}
     for s in scripts:
@@ -376,7 +383,7 @@ def run_part_c(ctx, info=None, replay_obj=None):
                               "observed_final": {d: {"known": v["known"], "entries": len(v["have"])} for d, v in fin["st"].items()},
                               "exchange_rounds": fin["rounds"]}], limit=7)
             break
-    info["rules"].append("(c) environment scripts of GenKeyDistribution (activation order x causal deliveries of single heads before / between / after the activations; 2x1 exhaustive, larger groups seeded walks spread over activation orders) replayed on real group contexts, sequentially and with deliveries racing the activations; every script ends with a full exchange; non-trivial = at least two announced devices and a scripted delivery that moved entries")
+    info["rules"].append("(c) environment scripts of GenKeyDistribution (activation order x causal deliveries of single heads before / between / after the activations; 2x1 exhaustive, larger groups seeded walks spread over activation orders) replayed on real group contexts, sequentially and as variants in which a delivery races with an activation whose log appends are slowed down; every script ends with a full exchange; non-trivial = at least two announced devices and a scripted delivery that moved entries")
     info["techniques"].append("KeyDistribution.tla model-checked by TLC (the code's design satisfies completeness on 2x1, 2 members with 2+1 devices, 3x1; six different designs each break it); TLC-generated scripts replayed on real orbit-db peers; observed values checked by TLC against MonKeyDistribution.tla (verdict) and TraceKeyDistribution.tla (conformance)")
     return info
 
